@@ -205,6 +205,13 @@ class Poly(object):
             return self.scale(other.const_value())
         if self.is_const():
             return other.scale(self.const_value())
+        if len(self.terms) == 1 and len(other.terms) == 1:
+            # sqrt(p) * sqrt(p) -> p  (the same normal form as sqrt(p) ** 2, however the square is written)
+            s1 = self.single_symbol()
+            if s1 is not None and s1 == other.single_symbol():
+                k = sym_key(s1)
+                if k[0] == "fn" and k[1] == "sqrt":
+                    return unpk(k[2][0])
         a, b = self.terms, other.terms
         if len(a) == 1 or len(b) == 1:
             if len(b) == 1:
